@@ -38,7 +38,12 @@ fn process_dec(token: Token) -> Result<Expression, ParserError> {
                 Ok(Expression::DoubleLiteral(u as f64))
             }
         }
-        Err(e) => Err(e.into()),
+        // a whole number beyond the range of LONG is a DOUBLE, however large
+        Err(_) => match token.to_string().parse::<f64>() {
+            Ok(d) if d.is_finite() => Ok(Expression::DoubleLiteral(d)),
+            Ok(_) => Err(ParserError::Overflow),
+            Err(e) => Err(e.into()),
+        },
     }
 }
 
